@@ -204,7 +204,8 @@ Fun1d(f, x) ==
 ArithOps == {"+", "-", "*", "/", "//", "%", "**", "<", "<=", ">", ">=", "==", "!="}
 \* result of a op b on unmasked operands: [ok |-> finite?, v |-> value]
 Bool(b) == RInt(IF b THEN 1 ELSE 0)
-ArithCell(op, a, b) ==
+IntTypes == {"b", "B", "h", "H", "i", "I", "l", "L", "q", "Q"}
+ArithCellF(op, a, b) ==
   CASE op = "+"  -> [ok |-> TRUE, v |-> RAdd(a, b)]
     [] op = "-"  -> [ok |-> TRUE, v |-> RSub(a, b)]
     [] op = "*"  -> [ok |-> TRUE, v |-> RMul(a, b)]
@@ -220,4 +221,9 @@ ArithCell(op, a, b) ==
     [] op = ">=" -> [ok |-> TRUE, v |-> Bool(RLe(b, a))]
     [] op = "==" -> [ok |-> TRUE, v |-> Bool(a = b)]
     [] op = "!=" -> [ok |-> TRUE, v |-> Bool(a # b)]
+ArithCell(op, a, b) == ArithCellF(op, a, b)
+\* integer arrays have no non-finite values: numpy defines x // 0 = x % 0 = 0
+ArithCellT(op, a, b, dt) ==
+  IF dt \in IntTypes /\ op \in {"//", "%"} /\ b.n = 0 THEN [ok |-> TRUE, v |-> RInt(0)]
+  ELSE ArithCellF(op, a, b)
 =================================================================================
